@@ -110,4 +110,10 @@ structure CookieExt where
   expired : authInfo → Bool
   unit : Nat → Unit := fun _ => ()
 
+/-- `keymasterdIDPCodeProtectedData` (cmd/keymasterd/idp_oidc.go): what is sealed inside an authorization code -/
+structure keymasterdIDPCodeProtectedData where
+  CodeChallenge : Str
+  CodeChallengeMethod : Str
+deriving DecidableEq, Repr
+
 end KM.GoTypes
